@@ -346,6 +346,8 @@ def gen_op(rng, st, recorded, serial, cfg):
         f = H.facts(st, recorded, op)
         if H.unsafe_ids(op, f) and rng.random() >= cfg.p_unsafe:
             continue
+        if op["op"] == "del_comp" and rng.random() < 0.2:
+            op["dc_form"] = rng.choice(["int", "numpy"])      # same truth value, another type (a flag computed with numpy, 0/1)
         return op, intent
     return {"op": "del_comp", "name": "zz", "del_childs": True}, "unknown_target"
 
